@@ -91,6 +91,29 @@ def eval_facade(case):
         if not rel_eq(got, want):
             viol.append(V(f"facade-unordered/{name}", f"Fluid.{name} on the shuffled array {p_sh.tolist()} returns values that "
                           "do not belong to their positions", case=case))
+    # long requests (a whole table column, a simulation's pressure field): 1500 and 4097 pressures in no particular order -
+    # every element still is the stand-alone correlation at that pressure, whatever else is in the array
+    for n_long in (1500, 4097):
+        base_ = np.geomspace(1.0, 19000.0, n_long)
+        p_long = np.concatenate([base_[1::2][::-1], base_[0::2]])
+        for name, fn, ref in (("gas_FVF", lambda q: fl.gas_FVF(q, tpc, ppc), lambda x: gas.b_factor_DAK(T, x, tpc, ppc)),
+                              ("gas_viscosity", lambda q: fl.gas_viscosity(q, tpc, ppc), lambda x: gas.viscosity_Sutton(T, x, tpc, ppc, g)),
+                              ("water_FVF", fl.water_FVF, lambda x: water.b_water_McCain(T, x)),
+                              ("water_viscosity", fl.water_viscosity, lambda x: water.viscosity_water_McCain(T, x, sal)),
+                              ("oil_FVF", fl.oil_FVF, lambda x: oil.b_o_Standing(T, x, api, g, gor)),
+                              ("oil_viscosity", fl.oil_viscosity, lambda x: oil.viscosity_beggs_robinson(T, x, api, g, gor))):
+            if n_long > 2000 and not name.startswith("gas"):
+                continue
+            try:
+                got = np.asarray(fn(p_long.copy()), dtype=float)
+            except Exception as e:  # noqa: BLE001
+                viol.append(V(f"facade-long/{name}", f"Fluid.{name} on {n_long} pressures raises {type(e).__name__}: {e}", case=case))
+                continue
+            want = np.array([float(ref(float(x))) for x in p_long])
+            if not rel_eq(got, want):
+                k = int(np.argmax(np.abs(got - want) / np.maximum(np.abs(want), 1e-300))) if got.shape == want.shape else 0
+                viol.append(V(f"facade-long/{name}", f"Fluid.{name} on an array of {n_long} pressures: element {k} (p={p_long[k]:.6g}) is "
+                              f"{got.ravel()[k] if got.size > k else None!r}, the stand-alone correlation gives {want[k]!r}", case=case, tol=REL))
     # history: the object's public attributes are reassigned one at a time on the SAME object (after the
     # calls above); every method must follow the object's *current* attributes
     expect = {"temperature": T, "api_gravity": api, "gas_specific_gravity": g, "solution_gor_initial": gor, "salinity": sal}
